@@ -56,6 +56,9 @@ def generate(rng, tier):
            {"t": 0.005, "op": "register", "h": "H", "svc": sh[0]},
            {"t": 0.006, "op": "browse", "h": "H", "id": "hb", "types": [T1, T2]}]
     t_close = rng.choice([0.0005, 0.05, 0.3, 0.5, 0.9, 1.5, 3.0, 6.0, 16.0, 30.0, 1000.0]) + rng.random() * 0.4
+    startup = rng.random() < 0.1
+    if startup:
+        t_close = 0.0005  # the close is requested while the instance is still starting (see close_step below)
     t = 0.01
     for s in sv:
         ops.append({"t": round(rng.choice([0.01, 0.2, max(0.01, t_close - 0.5), max(0.01, t_close - 0.2)]), 6),
@@ -70,7 +73,7 @@ def generate(rng, tier):
     nb = rng.choice([0, 1, 2, 3])
     for i in range(nb):
         ops.append({"t": round(rng.choice([0.02, max(0.02, t_close - 0.08), max(0.02, t_close - 5.0), t_close - 0.001])
-                               if t_close > 0.03 else 0.0004, 6),
+                               if t_close > 0.03 else (0.0 if startup else 0.0004), 6),
                     "op": "browse17", "h": "V", "id": f"vb{i}", "types": [rng.choice([T1, T2])],
                     "via_azc": rng.random() < 0.5, "delay": rng.choice([None, 1000])})
     for i in range(rng.choice([0, 1, 2])):
@@ -94,7 +97,9 @@ def generate(rng, tier):
         # ... or right after the close was requested (start-up, goodbyes and the close itself then resume together)
         ops.append({"t": round(t_close + rng.choice([0.0001, 0.001, 0.01, 0.13]), 6), "op": "stall", "h": "V",
                     "dur": rng.choice([0.3, 1.05, 1.5])})
-    mode = "sync" if rng.random() < 0.25 else "async"
+    mode = "sync" if rng.random() < 0.25 and not startup else "async"
+    if startup and rng.random() < 0.4:
+        ops.append({"t": 0.0, "op": "close", "h": "V"})  # ... and a second request in the same instant
     if mode == "async" and rng.random() < 0.2:
         # a second async_close() overlapping the first (a signal handler and a finally block, say)
         ops.append({"t": round(t_close + rng.choice([0.0, 0.001, 0.05, 0.126, 0.2, 0.3]), 6), "op": "close", "h": "V"})
@@ -112,11 +117,26 @@ def generate(rng, tier):
             ops.append({"t": round(ta, 6), "op": "send", "p": "X",
                         "msg": {"qr": 1, "an": [wire.RR(T1, 12, 4500, f"New{i}._http._tcp.local.").to_json()]}})
         ta += rng.choice([0.05, 1.0, 12.0, 100.0]) * rng.random()
+    if not startup and t_close > 1.5 and rng.random() < 0.08:
+        # a component keeps refreshing the TXT record of its service (a new ServiceInfo every 200 ms) and does not know
+        # that the application is shutting down
+        horizon = t_close + 8.0
+        ops = [o for o in ops if o["t"] <= horizon]
+        ta = min(ta, horizon - 2.0)
+        k = 0
+        tu = t_close - 0.3
+        while tu < horizon + 1.5:
+            s2 = dict(sv[0])
+            s2["props"] = {"n": str(k)}
+            ops.append({"t": round(tu, 6), "op": "update", "h": "V", "svc": s2})
+            k += 1
+            tu += 0.2
     ops.sort(key=lambda o: o["t"])
     faults = {"max_delay_us": rng.choice([0, 2000, 50000]), "loop_delay_us": rng.choice([0, 500]),
               "dup_p": rng.choice([0.0, 0.1])}
     return {"timer_slop_us": rng.choice([0, 0, 1, 50, 300]), "ops": ops, "faults": faults, "t_close": round(t_close, 6), "mode": mode,
-            "close_step": rng.choice([None, None, rng.randrange(1, 60), rng.randrange(1, 400)]) if mode == "async" else None,
+            "close_step": (rng.randrange(1, 16) if startup else
+                           rng.choice([None, None, rng.randrange(1, 60), rng.randrange(1, 400)])) if mode == "async" else None,
             "end": round(max(horizon, ta + 2.0), 6), "second_close": round(max(horizon, ta + 2.0) - 1.0, 6)}
 
 
@@ -168,7 +188,8 @@ def execute(scenario, seed, overrides=None):
             h = w.hosts["V"]
             zc = h.zc
             st["t_call"] = w.now
-            st["registered"] = [SvcRecords(_svc_of(scenario, i.name)) for i in zc.registry.async_get_service_infos()]
+            st["registered"] = [SvcRecords(_svc_of(scenario, i.name, w.now - w.t0 + 1e-9))
+                                for i in zc.registry.async_get_service_infos()]
             stats["registered_at_close"] += len(st["registered"])
             stats["queued_answers_at_close"] += len(zc.out_queue.queue) + len(zc.out_delay_queue.queue)
             stats["deferred_at_close"] += sum(len(p._deferred) for p in zc.engine.protocols)
@@ -278,11 +299,15 @@ def execute(scenario, seed, overrides=None):
     return out
 
 
-def _svc_of(sc, name):
+def _svc_of(sc, name, t=None):
+    """The version of the service that the application handed over last (register or update) up to time t."""
+    found = None
     for o in sc["ops"]:
-        if o["op"] == "register" and o["svc"]["name"].lower() == name.lower():
-            return o["svc"]
-    raise KeyError(name)
+        if o["op"] in ("register", "update") and o["svc"]["name"].lower() == name.lower() and (t is None or o["t"] <= t):
+            found = o["svc"]
+    if found is None:
+        raise KeyError(name)
+    return found
 
 
 def _oracle(w, drv, sc, st, probe, stats, out):
@@ -324,8 +349,17 @@ def _oracle(w, drv, sc, st, probe, stats, out):
     for o in sc["ops"]:
         if o["op"] == "register" and o.get("h") == "V" and o["svc"]["name"].lower() in unreg_names:
             exempt |= {r.ident() for r in SvcRecords(o["svc"]).addrs}
+    # a service that the application keeps updating after it asked for the close (API calls on a closing instance are
+    # outside the quantifier) is only required not to keep the close from returning
+    late_updates = {e["args"].lower() for e in w.api_log if e["op"] == "update" and e["host"] == "V"
+                    and e["t_call"] >= st["t_call"] - 1e-9}
+    for o in sc["ops"]:
+        if o["op"] == "update" and o["svc"]["name"].lower() in late_updates:
+            exempt |= {r.ident() for r in SvcRecords(o["svc"]).all()}
     # goodbyes for what was registered when close was called: every record three times on every socket
     for recs in st["registered"]:
+        if recs.name.lower() in late_updates:
+            continue
         must = {r.ident() for r in [recs.ptr, recs.srv, recs.txt] + recs.addrs}
         if recs.name.lower() in unreg_names:
             must -= exempt
@@ -350,7 +384,15 @@ def _oracle(w, drv, sc, st, probe, stats, out):
         if tx.t > t_ret or tx.msg is None or not tx.msg.is_response:
             continue
         for r in tx.msg.records():
-            if r.type == wire.T_NSEC or r.ident() in exempt:
+            if r.type == wire.T_NSEC:
+                continue
+            if r.ttl > 0 and r.flush and tx.multicast:
+                # a unique record announced with the cache-flush bit replaces what was announced before for that
+                # name and type (an update): the replaced version needs no goodbye
+                for old_ident in [i for i in pos if i[:3] == r.ident()[:3] and i != r.ident()]:
+                    del pos[old_ident]
+                    gb.pop(old_ident, None)
+            if r.ident() in exempt:
                 continue
             if r.ttl > 0:
                 pos[r.ident()] = (tx.t, tx.sock, tx.multicast, r)
@@ -369,6 +411,15 @@ def _oracle(w, drv, sc, st, probe, stats, out):
                     f"{t_ret - t0:.6f}; no later goodbye on {bad or 'any socket'}", after_call=t >= st["t_call"],
                     rtype=r.type, mode=sc["mode"], reg_in_flight=stats["registrations_in_flight_at_close"] > 0,
                     at_return=abs(t - t_ret) < 1e-6)
+            break
+    for owner, exc, coro in w.loop.unretrieved_task_exceptions():
+        if owner == "V":
+            out.add("C17.task-exception-unretrieved", f"a task of the instance ended with {exc} and nobody retrieves it (asyncio "
+                    f"reports it through the loop's exception handler when the task is collected): {coro}", exc=exc)
+            break
+    for e in w.api_log:
+        if e["op"] == "close-overlap" and e["exc"]:
+            out.add("C17.second-close-raised", f"an overlapping second close raised {e['exc']}")
             break
     if st.get("exc2"):
         out.add("C17.second-close-raised", f"closing again raised {st['exc2']}")
